@@ -137,6 +137,13 @@ def build(lib, c):
         P = None
     data, guard = lib_encode(lib, g, P, comp)
     expect(guard == b"\xCD" * 16, "g%d_marshal/overrun" % g, "marshal wrote past the documented encoding size")
+    if P is None:
+        # an identity whose coordinate fields hold leftovers (as after P + (-P) converted to affine form, or a re-used object) has the
+        # same, canonical encoding: flags and zeros
+        jx = c["v"] % Q if g == 1 else (c["v"] % Q, (c["v"] >> 7) % Q)
+        jy = (c["v"] * 3 + 1) % Q if g == 1 else ((c["v"] * 3 + 1) % Q, 5)
+        data_j, _ = lib_encode(lib, g, None, comp, junk=(jx, jy))
+        expect(data_j == data, "g%d_marshal/identity-with-leftover-coordinates" % g, lambda: "identity with junk coordinates encodes as %s, canonical identity as %s" % (data_j.hex(), data.hex()))
     cs = coeffs(g, data)
     ncoef = len(cs)
     i = c["idx"] % ncoef
